@@ -95,19 +95,39 @@ theorem partition_match_set (docs : List IDoc) (mode : Mode) (q : List Token) (d
 example : partSearch (buildPart [⟨7, [(0, ['a']), (1, ['b'])]⟩, ⟨9, [(0, ['b']), (1, ['a'])]⟩]) .phrase [['a'], ['b']] = [0] := by
   decide
 
+/-- the answer of the index does not depend on how its documents are spread over partitions (several workers, merges,
+    partitions above the target size): any two partition lists holding the same documents return the same rows -/
+theorem partition_independent (parts parts' : List Part) (docss docss' : List (List IDoc))
+    (h : ReprAll parts docss) (h' : ReprAll parts' docss') (same : ∀ doc, doc ∈ docss.flatten ↔ doc ∈ docss'.flatten)
+    (blocked : List Nat) (mode : Mode) (q : List Token) (x : Nat) :
+    x ∈ indexSearch parts blocked mode q ↔ x ∈ indexSearch parts' blocked mode q := by
+  rw [indexSearch_iff h, indexSearch_iff h']
+  constructor
+  · rintro ⟨hb, doc, hd, rest⟩; exact ⟨hb, doc, (same doc).1 hd, rest⟩
+  · rintro ⟨hb, doc, hd, rest⟩; exact ⟨hb, doc, (same doc).2 hd, rest⟩
+
+example : indexSearch [buildPart [⟨7, [(0, ['a'])]⟩], buildPart [⟨9, [(0, ['b']), (1, ['a'])]⟩]] [] .and [['a']] = [7, 9] ∧
+    indexSearch [buildPart [⟨7, [(0, ['a'])]⟩, ⟨9, [(0, ['b']), (1, ['a'])]⟩]] [] .and [['a']] = [7, 9] := by decide
+
 /-! ## 3. Match queries: all / any terms, minus deleted, plus unindexed rows — for every history -/
 
+/-- the configuration queries run under: the index's configuration `cfg` once an index exists -/
+theorem effCfg_run (ops : CharOps) (cfg : Cfg) (history : List Op) :
+    (Ds.run ops cfg history).effCfg = if (Ds.run ops cfg history).idx.isSome then cfg else rawCfg := by
+  unfold Ds.effCfg
+  cases (Ds.run ops cfg history).idx with
+  | none => rfl
+  | some ix => simp [cfg_run]
+
 /-- `match_set`: after ANY history of appends, deletes, index builds and optimisations, a match query returns exactly the
-    live rows (indexed or not) whose text contains any (OR) / all (AND) of the query's tokens -/
+    live rows (indexed or not) whose text contains any (OR) / all (AND) of the query's tokens, under the index's tokenizer
+    configuration (`effCfg`: `cfg` once an index exists; before that lance splits with the bare simple tokenizer) -/
 theorem match_set (ops : CharOps) (cfg : Cfg) (history : List Op) (and : Bool) (text : List Char) (x : Nat) :
     x ∈ matchSearch ops (Ds.run ops cfg history) and text ↔
       ∃ r ∈ (Ds.run ops cfg history).rows, r.id = x ∧ r.deleted = false ∧ ∃ t, r.text = some t ∧
-        DocMatch (if and then .and else .or) (tokenTexts ops cfg text) (tokenize ops cfg t) := by
-  have := matchSearch_iff (consistent_run ops cfg history) and text x
-  rw [cfg_run] at this
-  unfold LiveMatch at this
-  rw [cfg_run] at this
-  exact this
+        DocMatch (if and then .and else .or) (tokenTexts ops (Ds.run ops cfg history).effCfg text)
+          (tokenize ops (Ds.run ops cfg history).effCfg t) :=
+  matchSearch_iff (consistent_run ops cfg history) and text x
 
 /-- `DocMatch` in plain words -/
 theorem match_meaning (q : List Token) (toks : List (Nat × Token)) :
@@ -178,7 +198,7 @@ def C23_full (ops : CharOps) : Prop :=
   ∀ (cfg : Cfg) (history : List Op) (q : Query) (x : Nat),
     queryRefused (Ds.run ops cfg history) q = false →
     (x ∈ evalQ ops (Ds.run ops cfg history) q ↔
-      LiveMatch ops (Ds.run ops cfg history) x (QSpec ops cfg q))
+      LiveMatch ops (Ds.run ops cfg history) x (QSpec ops (Ds.run ops cfg history).effCfg q))
 
 /-- every live row lies in a fragment the index covers (nothing was appended since the last build / optimize) -/
 def Ds.covered (ds : Ds) : Bool :=
@@ -191,14 +211,20 @@ def Ds.covered (ds : Ds) : Bool :=
     recorded findings `phrase_unindexed` and `phrase_position_gap`. -/
 theorem C23_partial (ops : CharOps) (cfg : Cfg) (history : List Op) (q : Query) (x : Nat)
     (hyp : q.hasPhrase = false ∨ ((Ds.run ops cfg history).covered = true ∧ q.dense ops cfg = true)) :
-    x ∈ evalQ ops (Ds.run ops cfg history) q ↔ LiveMatch ops (Ds.run ops cfg history) x (QSpec ops cfg q) := by
+    x ∈ evalQ ops (Ds.run ops cfg history) q ↔
+      LiveMatch ops (Ds.run ops cfg history) x (QSpec ops (Ds.run ops cfg history).effCfg q) := by
   have hc := consistent_run ops cfg history
   have hcfg := cfg_run ops cfg history
-  have hdense : q.dense ops (Ds.run ops cfg history).cfg = true := by
-    rw [hcfg]
+  have hcov_idx : (Ds.run ops cfg history).covered = true → (Ds.run ops cfg history).effCfg = cfg := by
+    intro hcov
+    unfold Ds.covered at hcov
+    cases hix : (Ds.run ops cfg history).idx with
+    | none => rw [hix] at hcov; cases hcov
+    | some ix => rw [effCfg_some hix, hcfg]
+  have hdense : q.dense ops (Ds.run ops cfg history).effCfg = true := by
     rcases hyp with h | h
-    · exact noPhrase_dense ops cfg q h
-    · exact h.2
+    · exact noPhrase_dense ops _ q h
+    · rw [hcov_idx h.1]; exact h.2
   have hready : q.hasPhrase = true → PhraseReady (Ds.run ops cfg history) := by
     intro hp
     rcases hyp with h | h
@@ -213,9 +239,7 @@ theorem C23_partial (ops : CharOps) (cfg : Cfg) (history : List Op) (q : Query) 
         intro r hr hdel
         have := List.all_eq_true.1 hcov r hr
         simpa [hdel] using this
-  have := evalQ_spec hc x q hdense hready
-  rw [hcfg] at this
-  exact this
+  exact evalQ_spec hc x q hdense hready
 
 def cfgGap : Cfg := ⟨true, true, some 5, true⟩
 
@@ -229,6 +253,9 @@ theorem C23_counterexample_unindexed : ¬ C23_full asciiOps := by
       [.append [[some "a b".toList]], .index, .append [[some "a b".toList]]]) (.phrase "a b".toList) := by
     apply h1
     refine ⟨⟨1, some "a b".toList, 1, false⟩, by decide, rfl, rfl, "a b".toList, rfl, ?_⟩
+    have he : (Ds.run asciiOps ⟨true, true, none, true⟩
+        [.append [[some "a b".toList]], .index, .append [[some "a b".toList]]]).effCfg = ⟨true, true, none, true⟩ := by decide
+    rw [he]
     show PhraseSpec (tokenize asciiOps ⟨true, true, none, true⟩ "a b".toList) (tokenize asciiOps ⟨true, true, none, true⟩ "a b".toList)
     have : tokenize asciiOps ⟨true, true, none, true⟩ "a b".toList = [(0, ['a']), (1, ['b'])] := by decide
     rw [this]
@@ -245,6 +272,8 @@ theorem C23_counterexample_gap : ¬ C23_full asciiOps := by
       (.phrase "a elephant b".toList) := by
     apply h1
     refine ⟨⟨0, some "a elephant b".toList, 0, false⟩, by decide, rfl, rfl, "a elephant b".toList, rfl, ?_⟩
+    have he : (Ds.run asciiOps cfgGap [.append [[some "a elephant b".toList]], .index]).effCfg = cfgGap := by decide
+    rw [he]
     show PhraseSpec (tokenize asciiOps cfgGap "a elephant b".toList) (tokenize asciiOps cfgGap "a elephant b".toList)
     have : tokenize asciiOps cfgGap "a elephant b".toList = [(0, ['a']), (2, ['b'])] := by decide
     rw [this]
